@@ -128,7 +128,12 @@ func endorseLib(a *worlda.Authority, vcs endorse.VersionControl, q Req) error {
 	} else {
 		// a long-lived caller re-using its endorse.Context for another run: only the mode and the
 		// per-run inputs change
+		// (every exported input is set anew, field by field: whatever the Context keeps privately
+		// from the earlier run stays)
+		fresh := BuildContext(vcs, q)
 		ec.DryRun, ec.MeasurementOnly, ec.SnapshotDir, ec.CandidateName, ec.Timestamp = q.DryRun, q.MeasurementOnly, q.SnapshotDir, q.Candidate, q.Timestamp
+		ec.Image, ec.ImageName, ec.ClSpec, ec.Commit, ec.CommitRetries, ec.OutDir = fresh.Image, fresh.ImageName, fresh.ClSpec, fresh.Commit, fresh.CommitRetries, fresh.OutDir
+		ec.SvsmSnpMeasurement, ec.SevSnp, ec.Tdx = fresh.SvsmSnpMeasurement, fresh.SevSnp, fresh.Tdx
 		if ec.VCS == nil {
 			ec.VCS = vcs
 		}
